@@ -472,6 +472,10 @@ impl Directory {
             if etyp==EntryType::FreeAndNoMore {
                 break;
             }
+            if etyp==EntryType::VolumeLabel {
+                // the label is not a file: a path must not resolve to it
+                continue;
+            }
             if bad_names > 2 {
                 debug!("after {} bad file names rejecting disk",bad_names);
                 return Err(Box::new(Error::Syntax));
